@@ -300,6 +300,10 @@ func (c *EvalCtx) eval(e Expr) TV {
 				h := s.ElemHeap(u.Elem())
 				return TV{Term: fmt.Sprintf("(select (select %s (s.arr %s)) (at (s.off %s) %s))", c.st.get(h), x.Term, x.Term, i.Term), Sort: s.SortOf(u.Elem()), T: u.Elem()}
 			case *types.Map:
+				if id, ok := e.X.(*EIdent); ok && id.Name == "#range" && i.Sort != s.SortOf(u.Key()) {
+					// `#range[j]` written for a range over a slice, and the loop now ranges over a map
+					panic(fmt.Errorf("contract structure lost: %s: a loop whose invariant indexes the list it ranges over (#range[%s]) ranges over a map now", c.enc.key, e.I))
+				}
 				_, hv, _ := s.MapHeaps(u)
 				return TV{Term: fmt.Sprintf("(select (select %s %s) %s)", c.st.get(hv), x.Term, i.Term), Sort: s.SortOf(u.Elem()), T: u.Elem()}
 			case *types.Pointer:
